@@ -13,9 +13,15 @@ class Collector:
         self.calls: list = []
         self.samples: list = []
         self.quick = True
+        self.data: list = []     # picklable payload handed back to the caller of pmap
+        self._violations: list = []
 
     def violation(self, key, detail):
         self.calls.append(("violation", key, detail))
+        self._violations.append(key)
+
+    def emit(self, obj) -> None:
+        self.data.append(obj)
 
     def drift(self, key, detail):
         self.calls.append(("drift", key, detail))
@@ -62,9 +68,10 @@ def _run(args):
     return ("ok", col)
 
 
-def pmap(ctx, fn, items, procs: int | None = None) -> None:
+def pmap(ctx, fn, items, procs: int | None = None) -> list:
     """Run ``fn(collector, item)`` for every item in worker processes and replay
-    the recorded verdict calls on ``ctx`` in item order."""
+    the recorded verdict calls on ``ctx`` in item order.  Returns, per item, the
+    list of objects the job handed back with ``collector.emit``."""
     items = list(items)
     procs = min(nprocs(procs), max(1, len(items)))
     if procs <= 1:
@@ -72,7 +79,10 @@ def pmap(ctx, fn, items, procs: int | None = None) -> None:
     else:
         with mp.get_context("fork").Pool(procs) as pool:
             results = pool.map(_run, [(fn, it) for it in items], chunksize=max(1, len(items) // (procs * 4)))
+    out = []
     for kind, val in results:
         if kind == "error":
             raise RuntimeError(f"worker failed: {val}")
         val.apply(ctx)
+        out.append(val.data)
+    return out
